@@ -105,12 +105,15 @@ Proof.
 Qed.
 
 (* ================================================================== refutations (witness event lists, vm_compute)
-   `rr_pinned` = raft.rs before the two election repairs, `rr_fixed` = after both (Raft.v: raftrev).
+   `rr_pinned` = raft.rs before the repairs, `rr_before_ack_fix` = after the two election repairs, `rr_fixed` = after
+   these and the acknowledgement repair (Raft.v: raftrev).
    The witnesses of the election defects are about `rr_pinned` (and about the revisions with only one of the two
-   repairs); the witnesses of the log-replication defects hold for EVERY revision. *)
+   election repairs, whatever the third flag); the witnesses of the log-replication defects `ack-from-diverged-log`
+   and `old-term-commit` hold for EVERY revision; those of `commit-without-quorum` (RaftLogProofs.v) for every revision
+   without the acknowledgement repair. *)
 
-Definition rr_only_term : raftrev := mkRev true false.    (* only `vote_request` adopts the term *)
-Definition rr_only_match : raftrev := mkRev false true.   (* only `response()` checks the term *)
+Definition rr_only_term (a : bool) : raftrev := mkRev true false a.    (* only `vote_request` adopts the term *)
+Definition rr_only_match (a : bool) : raftrev := mkRev false true a.   (* only `response()` checks the term *)
 
 (* C27 is false of the faithful model.  Witness 1 (3 nodes): node 2 answers Ok to the Vote requests of two
    candidates of term 1, because voting does not raise its term and `Voted(1)` is forgotten on term timeout. *)
@@ -142,21 +145,26 @@ Qed.
 
 (* each repair alone is not enough: with only the term check in `response()` the double-vote witness still has two
    leaders of term 1; with only the term adoption in `vote_request` the stale-vote witness still has *)
-Lemma w27_single_repair_facts :
-  election_safety_b (c_hist (run rr_only_match w27_double_vote_n w27_double_vote)) = false /\
-  election_safety_b (c_hist (run rr_only_term w27_stale_vote_n w27_stale_vote)) = false.
-Proof. vm_compute. auto. Qed.
+Lemma w27_single_repair_facts : forall a,
+  election_safety_b (c_hist (run (rr_only_match a) w27_double_vote_n w27_double_vote)) = false /\
+  election_safety_b (c_hist (run (rr_only_term a) w27_stale_vote_n w27_stale_vote)) = false /\
+  election_safety_b (c_hist (run (mkRev false false a) w27_double_vote_n w27_double_vote)) = false.
+Proof. intros [|]; vm_compute; auto. Qed.
 
+(* every revision that lacks one of the two ELECTION repairs violates the property (the third flag, the acknowledgement
+   repair, is irrelevant for elections: with both election repairs the property holds whatever its value,
+   RaftVote.election_safety_elect_fixed) *)
 Lemma C27_refuted_unless_both_repairs :
-  forall rv, rv <> rr_fixed -> ~ (forall size evs, election_safety (c_hist (run rv size evs))).
+  forall rv, fix_vote_term rv && fix_vote_match rv = false ->
+             ~ (forall size evs, election_safety (c_hist (run rv size evs))).
 Proof.
-  intros [[|] [|]] Hne H.
-  - exfalso. apply Hne. reflexivity.
+  intros [[|] [|] a] Hne H; cbn in Hne; try discriminate.
   - specialize (H w27_stale_vote_n w27_stale_vote). apply election_safety_b_sound in H.
-    destruct w27_single_repair_facts as [_ F]. unfold rr_only_term in F. congruence.
+    destruct (w27_single_repair_facts a) as [_ [F _]]. unfold rr_only_term in F. congruence.
   - specialize (H w27_double_vote_n w27_double_vote). apply election_safety_b_sound in H.
-    destruct w27_single_repair_facts as [F _]. unfold rr_only_match in F. congruence.
-  - apply C27_refuted_double_vote. exact H.
+    destruct (w27_single_repair_facts a) as [F _]. unfold rr_only_match in F. congruence.
+  - specialize (H w27_double_vote_n w27_double_vote). apply election_safety_b_sound in H.
+    destruct (w27_single_repair_facts a) as [_ [_ F]]. congruence.
 Qed.
 
 (* which of the five decidable defect classes occur in a history:
@@ -172,7 +180,7 @@ Lemma w28_facts_any : forall rv,
   (let c := run rv w28_old_term_commit_n w28_old_term_commit in
    committed_agree_b c = false /\ election_safety_b (c_hist c) = true /\
    classes (c_hist c) = (false, false, false, true, false)).
-Proof. intros [[|] [|]]; vm_compute; repeat split; reflexivity. Qed.
+Proof. intros [[|] [|] [|]]; vm_compute; repeat split; reflexivity. Qed.
 
 (* the witnesses through "voting does not raise the term" and through the election defects: before the repairs *)
 Lemma w28_facts_pinned :
@@ -225,7 +233,7 @@ Lemma w29_facts_any : forall rv,
    leader_completeness_b h = false /\ election_safety_b h = true /\ classes h = (false, false, false, true, false)) /\
   (let h := c_hist (run rv w29_ack_diverged_n w29_ack_diverged) in
    leader_completeness_b h = false /\ election_safety_b h = true /\ classes h = (false, false, true, false, false)).
-Proof. intros [[|] [|]]; vm_compute; repeat split; reflexivity. Qed.
+Proof. intros [[|] [|] [|]]; vm_compute; repeat split; reflexivity. Qed.
 
 Lemma w29_facts_pinned :
   (let h := c_hist (run rr_pinned w29_ack_below_vote_n w29_ack_below_vote) in
